@@ -795,3 +795,50 @@ def suspend_gates(m, rep, rule):
                           fname, conds, sorted(stable(a)[:60] for a in amounts) or "none", hi), b.span)
     rep.floor(rule, "stage functions whose suspend paths were examined", n_fn, 5)
     rep.floor(rule + ".paths", "suspend paths examined", n_paths, 5)
+
+
+
+def setter_applies_size(m, rep, rule):
+    """ChunkDeserializer::set_max_chunk_size either refuses the value or, on every path on which it returns Ok, stores exactly the
+    value it was given - at once: the peer cuts its very next chunk with the new size (a capped, rounded or deferred size
+    desynchronises the stream when the size changes while a message is in flight on another chunk stream, or for sizes above the cap)."""
+    prog, env = m.prog, m.env
+    b = body_by_pretty(prog, "chunk_io::deserializer::ChunkDeserializer::set_max_chunk_size")
+    if b is None:
+        rep.anchor_missing(rule, "ChunkDeserializer::set_max_chunk_size")
+        return
+    rep.fn(b.key)
+    ex = grammar.trace(env, b.key, "r")
+    n_ok, bad = 0, []
+    for p in ex.paths:
+        rets = [t for t in p if t[0] == "returns"]
+        text = str(rets[-1][1]) if rets else ""
+        if not p or p[-1][0] != "end" or p[-1][1] == "err" or text.startswith("Err("):
+            continue
+        n_ok += 1
+        st = [t for t in p if t[0] == "store" and t[1] == "max_chunk_size"]
+        if len(st) != 1 or not re.match(r"^\(?load\(new_size\)( as \w+\))?$|^load\(\w+\)$", str(st[0][2])):
+            bad.append("an Ok path %s" % (("stores max_chunk_size := %s" % str(st[0][2])[:80]) if st else "does not store the size (it is remembered elsewhere or dropped)"))
+    rep.check(rule, "deserializer-setter-applies-the-announced-size", n_ok >= 1 and not bad and not ex.truncated,
+              "set_max_chunk_size stores exactly the value it was given on every Ok path (%d)" % n_ok,
+              "ChunkDeserializer::set_max_chunk_size: %s; the peer uses the announced size from its next chunk on" % ("; ".join(sorted(set(bad))[:2]) or "no Ok path found"), b.span)
+    # who else writes the size or the input buffer?
+    des_ty = m.de_adt["pretty"]
+    others = []
+    for fb in prog.bodies.values():
+        if fb.kind != "assoc" or not fb.impl or fb.impl.get("trait") is not None or fb.impl["self_ty"] != des_ty or fb.name == "new":
+            continue
+        name = fb.pretty.split("::")[-1]
+        for blk in fb.blocks:
+            if blk["cleanup"]:
+                continue
+            for st in blk["stmts"]:
+                pp = st["place"]["p"]
+                last = pp[-1] if pp else None
+                if isinstance(last, dict) and last.get("n") == "max_chunk_size" and name != "set_max_chunk_size":
+                    others.append("%s writes max_chunk_size" % name)
+                if isinstance(last, dict) and last.get("n") == "buffer":
+                    others.append("%s replaces the input buffer (bytes already received would be lost)" % name)
+    rep.check(rule, "deserializer-size-and-buffer-writers", not others,
+              "only set_max_chunk_size writes the chunk size, and no method replaces the input buffer",
+              "; ".join(sorted(set(others))[:3]), b.span)
